@@ -197,7 +197,10 @@ class MarkerExpression(SingleMarker):
                 rhs = normalize_name(rhs)
         if isinstance(rhs, str):
             try:
-                spec = Specifier(f"{self.op}{rhs}")
+                # `self.op` is stored from the variable's point of view; a reversed
+                # atom compares the literal (lhs) against the environment value (rhs)
+                op = get_reflect_op(self.op) if self.reversed else self.op
+                spec = Specifier(f"{op}{rhs}")
             except InvalidSpecifier:
                 pass
             else:
